@@ -15,6 +15,7 @@ struct Pats {
     sorted: Vec<(String, Regex)>,          // by name: index used by the `spans` stream
     mask: Vec<(Regex, String)>,            // replace_all order with tokens
     probes: (Regex, Regex, Regex),         // \d \s \w of the regex crate
+    asts: Vec<Node>,                       // parsed by the translator, same order as `sorted`
 }
 
 fn load() -> Pats {
@@ -32,7 +33,8 @@ fn load() -> Pats {
     let sorted = names.iter().map(|n| (n.clone(), get(n))).collect();
     let mask = v["mask"].as_array().unwrap().iter()
         .map(|e| (get(e[0].as_str().unwrap()), e[1].as_str().unwrap().to_string())).collect();
-    Pats { sorted, mask, probes: (Regex::new(r"^\d$").unwrap(), Regex::new(r"^\s$").unwrap(), Regex::new(r"^\w$").unwrap()) }
+    let asts = names.iter().map(|n| { let mut id = 0; Node::from_json(&v["ast"][n.as_str()], &mut id) }).collect();
+    Pats { sorted, mask, asts, probes: (Regex::new(r"^\d$").unwrap(), Regex::new(r"^\s$").unwrap(), Regex::new(r"^\w$").unwrap()) }
 }
 
 fn catch<R>(f: impl FnOnce() -> R + std::panic::UnwindSafe) -> Option<R> {
@@ -165,6 +167,253 @@ fn gen_text(r: &mut Rng) -> (String, Vec<String>) {
     (s, tags)
 }
 
+// ------------------------------------------------------------------ sampling from the pattern ASTs
+/// the translator's AST (coq/Gen/pii_patterns.json "ast"), seq/alt chains flattened; every
+/// alternation gets a number so that each of its branches can be forced
+#[derive(Clone, Debug)]
+enum Node {
+    Eps,
+    Wb,
+    Cls { neg: bool, ranges: Vec<(u32, u32)>, d: bool, s: bool, w: bool },
+    Seq(Vec<Node>),
+    Alt(usize, Vec<Node>),
+    Rep(Box<Node>, usize, Option<usize>),
+}
+
+impl Node {
+    fn from_json(v: &serde_json::Value, next_alt: &mut usize) -> Node {
+        let a = v.as_array().expect("ast node");
+        match a[0].as_str().expect("ast tag") {
+            "eps" => Node::Eps,
+            "wb" => Node::Wb,
+            "cls" => Node::Cls {
+                neg: a[1].as_bool().unwrap(),
+                ranges: a[2].as_array().unwrap().iter().map(|r| (r[0].as_u64().unwrap() as u32, r[1].as_u64().unwrap() as u32)).collect(),
+                d: a[3].as_bool().unwrap(), s: a[4].as_bool().unwrap(), w: a[5].as_bool().unwrap() },
+            "seq" => {
+                let mut items = vec![]; let mut cur = v;
+                loop {
+                    let c = cur.as_array().unwrap();
+                    if c[0].as_str() == Some("seq") { items.push(Node::from_json(&c[1], next_alt)); cur = &c[2]; } else { items.push(Node::from_json(cur, next_alt)); break; }
+                }
+                Node::Seq(items)
+            }
+            "alt" => {
+                let id = *next_alt; *next_alt += 1;
+                let mut items = vec![]; let mut cur = v;
+                loop {
+                    let c = cur.as_array().unwrap();
+                    if c[0].as_str() == Some("alt") { items.push(Node::from_json(&c[1], next_alt)); cur = &c[2]; } else { items.push(Node::from_json(cur, next_alt)); break; }
+                }
+                Node::Alt(id, items)
+            }
+            "rep" => Node::Rep(Box::new(Node::from_json(&a[1], next_alt)), a[2].as_u64().unwrap() as usize, a[3].as_u64().map(|e| e as usize)),
+            t => panic!("unknown ast tag {}", t),
+        }
+    }
+    /// (alternation number, number of branches) of every alternation
+    fn alts(&self, out: &mut Vec<(usize, usize)>) {
+        match self {
+            Node::Seq(v) => for x in v { x.alts(out) },
+            Node::Alt(id, v) => { out.push((*id, v.len())); for x in v { x.alts(out) } }
+            Node::Rep(b, _, _) => b.alts(out),
+            _ => {}
+        }
+    }
+    /// has L(self), with alternation `force.0` restricted to branch `force.1`, a string without
+    /// any character satisfying `bad` (\b ignored)
+    fn can_avoid(&self, force: Option<(usize, usize)>, bad: &dyn Fn(char) -> bool) -> bool {
+        match self {
+            Node::Eps | Node::Wb => true,
+            Node::Cls { .. } => class_choices(self).iter().any(|(_, cs)| cs.iter().any(|c| !bad(*c))),
+            Node::Seq(v) => v.iter().all(|x| x.can_avoid(force, bad)),
+            Node::Alt(id, v) => match force { Some((f, b)) if f == *id => v[b].can_avoid(force, bad), _ => v.iter().any(|x| x.can_avoid(force, bad)) },
+            Node::Rep(b, lo, _) => *lo == 0 || b.can_avoid(force, bad),
+        }
+    }
+}
+
+#[derive(Clone, Copy, Debug, PartialEq)]
+enum Kind { Letter, Digit, Other }
+
+/// the sub-ranges of a class as (kind, candidate characters): ASCII letters, ASCII digits, and
+/// every other member on its own (each punctuation alternative, '_', space, the two non-ASCII
+/// case-folding partners)
+fn class_choices(n: &Node) -> Vec<(Kind, Vec<char>)> {
+    let (neg, ranges, d, s, w) = match n { Node::Cls { neg, ranges, d, s, w } => (*neg, ranges, *d, *s, *w), _ => return vec![] };
+    let member = |c: char| -> bool {
+        let u = c as u32;
+        let m = ranges.iter().any(|(lo, hi)| *lo <= u && u <= *hi) || (d && c.is_ascii_digit()) || (s && (c == ' ' || ('\t'..='\r').contains(&c)))
+            || (w && (c.is_ascii_alphanumeric() || c == '_'));
+        m != neg
+    };
+    let mut letters = vec![]; let mut digits = vec![]; let mut out = vec![];
+    let pool: Vec<char> = (0x20u32..0x7f).chain([0x09, 0x0a, 0x17f, 0x212a]).filter_map(char::from_u32).collect();
+    for c in pool {
+        if !member(c) { continue; }
+        if c.is_ascii_alphabetic() { letters.push(c) } else if c.is_ascii_digit() { digits.push(c) } else { out.push((Kind::Other, vec![c])) }
+    }
+    if !letters.is_empty() { out.insert(0, (Kind::Letter, letters)); }
+    if !digits.is_empty() { out.insert(0, (Kind::Digit, digits)); }
+    if neg && out.len() > 12 { out.truncate(12); }      // a negated class: a dozen representatives
+    out
+}
+
+#[derive(Clone, Copy, Debug, PartialEq)]
+enum Pref { Letters, Digits, Other(usize), Mixed }
+#[derive(Clone, Copy, Debug, PartialEq)]
+enum Reps { Min, MinPlus1, Max, Rand }
+#[derive(Clone, Copy, Debug)]
+struct Policy { pref: Pref, reps: Reps, force: Option<(usize, usize)> }
+
+fn pick_char(r: &mut Rng, n: &Node, pref: Pref) -> Option<char> {
+    let ch = class_choices(n);
+    if ch.is_empty() { return None; }
+    let of = |k: Kind| ch.iter().find(|(kk, _)| *kk == k).map(|(_, v)| v.clone());
+    let others: Vec<char> = ch.iter().filter(|(k, _)| *k == Kind::Other).map(|(_, v)| v[0]).collect();
+    let not_at: Vec<char> = others.iter().copied().filter(|c| *c != '@').collect();
+    let set: Vec<char> = match pref {
+        // fall back to whatever keeps the string free of digits and '@' as long as possible
+        Pref::Letters => of(Kind::Letter).or(if not_at.is_empty() { None } else { Some(not_at.clone()) }).or(if others.is_empty() { None } else { Some(others.clone()) }).or(of(Kind::Digit)).unwrap(),
+        Pref::Digits => of(Kind::Digit).or(of(Kind::Letter)).or(if others.is_empty() { None } else { Some(others.clone()) }).unwrap(),
+        Pref::Other(k) => if others.is_empty() { of(Kind::Letter).or(of(Kind::Digit)).unwrap() }
+                          else if r.chance(2, 3) { vec![others[k % others.len()]] } else { of(Kind::Letter).or(of(Kind::Digit)).unwrap_or(vec![others[k % others.len()]]) },
+        Pref::Mixed => { let i = r.below(ch.len() as u64) as usize; ch[i].1.clone() }
+    };
+    Some(*r.pick(&set))
+}
+
+/// one string of L(n) (up to the \b conditions, which depend on the carrier), chosen by the policy
+fn sample(r: &mut Rng, n: &Node, pol: &Policy, out: &mut String) {
+    match n {
+        Node::Eps | Node::Wb => {}
+        Node::Cls { .. } => { if let Some(c) = pick_char(r, n, pol.pref) { out.push(c) } }
+        Node::Seq(v) => for x in v { sample(r, x, pol, out) },
+        Node::Alt(id, v) => {
+            let b = match pol.force { Some((f, b)) if f == *id => b, _ => r.below(v.len() as u64) as usize };
+            sample(r, &v[b], pol, out)
+        }
+        Node::Rep(b, lo, ext) => {
+            let cnt = match (pol.reps, ext) {
+                (Reps::Min, _) => *lo,
+                (Reps::MinPlus1, Some(0)) => *lo,
+                (Reps::MinPlus1, _) => *lo + 1,
+                (Reps::Max, Some(e)) => *lo + *e,
+                (Reps::Max, None) => *lo + 3,
+                (Reps::Rand, Some(e)) => *lo + r.below(*e as u64 + 1) as usize,
+                (Reps::Rand, None) => *lo + r.below(5) as usize,
+            };
+            for _ in 0..cnt { sample(r, b, pol, out) }
+        }
+    }
+}
+
+/// carrier texts; kinds 0..=3 contain no digit and no '@', 0 and 1 only letters and spaces
+const CARRIERS: usize = 10;
+fn carrier(kind: usize, m: &str) -> (String, &'static str) {
+    match kind {
+        0 => (m.to_string(), "bare"),
+        1 => (format!("export the key {} then stop", m), "letters-spaces"),
+        2 => (format!("note: ({}); ok!", m), "punct-nodigit"),
+        3 => (format!("see {}", m), "at-end"),
+        4 => (format!("{} was seen", m), "at-start"),
+        5 => (format!("id 42 {} v7 2024", m), "other-digits"),
+        6 => (format!("x{}", m), "word-before"),
+        7 => (format!("{}x", m), "word-after"),
+        8 => (format!("a_{}_b", m), "underscores-around"),
+        _ => (format!("={}.", m), "punct-around"),
+    }
+}
+
+fn has_digit_or_at(s: &str) -> bool { s.chars().any(|c| c.is_ascii_digit() || c == '@') }
+
+/// The corpus: for every pattern and every branch of every alternation, letters-preferring and
+/// digits-preferring samples with minimum and minimum+1 repetition counts in digit-free and
+/// '@'-free carriers; every "other" member of the classes (each punctuation alternative);
+/// every carrier kind; ordered pairs of patterns.  Returns (text, tags, sampled pattern indices).
+fn corpus(p: &Pats, r: &mut Rng) -> Vec<(String, Vec<String>, Vec<usize>)> {
+    let mut out: Vec<(String, Vec<String>, Vec<usize>)> = vec![];
+    let np = p.sorted.len();
+    let bad = |c: char| c.is_ascii_digit() || c == '@';
+    let mut gaps: Vec<String> = vec![];
+    for pi in 0..np {
+        let name = p.sorted[pi].0.trim_end_matches("_REGEX").to_string();
+        let ast = &p.asts[pi];
+        let mut alts = vec![]; ast.alts(&mut alts);
+        let mut forces: Vec<Option<(usize, usize)>> = vec![];
+        if alts.is_empty() { forces.push(None); }
+        for (id, nb) in &alts { for b in 0..*nb { forces.push(Some((*id, b))); } }
+        // A. every branch x {letters, digits} x {min, min+1} x {bare, letters-and-spaces carrier}
+        for force in &forces {
+            let bname = match force { None => "b-".to_string(), Some((id, b)) => format!("alt{}b{}", id, b) };
+            for pref in [Pref::Letters, Pref::Digits] {
+                let mut hit = false; let mut hit_free = false;
+                for reps in [Reps::Min, Reps::MinPlus1] {
+                    for ck in [0usize, 1] {
+                        let mut m = String::new();
+                        sample(r, ast, &Policy { pref, reps, force: *force }, &mut m);
+                        let (x, cname) = carrier(ck, &m);
+                        let is = p.sorted[pi].1.is_match(&x);
+                        hit |= is; hit_free |= is && !has_digit_or_at(&x);
+                        out.push((x, vec!["A".into(), format!("{}:{}:{:?}:{:?}", name, bname, pref, reps), cname.into(), (if is { "hit" } else { "nohit" }).into()], vec![pi]));
+                    }
+                }
+                if !hit { gaps.push(format!("{} {} {:?}: no sample matched", name, bname, pref)); }
+                if pref == Pref::Letters && ast.can_avoid(*force, &bad) && !hit_free { gaps.push(format!("{} {}: no digit-free '@'-free match", name, bname)); }
+            }
+        }
+        // B. every "other" member of the widest class (each punctuation alternative), and mixed
+        let mut nother = 0usize;
+        fn widest(n: &Node, best: &mut usize) {
+            match n {
+                Node::Cls { .. } => { let k = class_choices(n).iter().filter(|(k, _)| *k == Kind::Other).count(); if k > *best && k <= 12 { *best = k } }
+                Node::Seq(v) | Node::Alt(_, v) => for x in v { widest(x, best) },
+                Node::Rep(b, _, _) => widest(b, best),
+                _ => {}
+            }
+        }
+        widest(ast, &mut nother);
+        let mut prefs: Vec<Pref> = (0..nother).map(Pref::Other).collect();
+        prefs.push(Pref::Mixed); prefs.push(Pref::Mixed);
+        for pref in prefs {
+            for reps in [Reps::Min, Reps::MinPlus1, Reps::Rand] {
+                let mut m = String::new();
+                sample(r, ast, &Policy { pref, reps, force: None }, &mut m);
+                let (x, cname) = carrier(r.below(CARRIERS as u64) as usize, &m);
+                let is = p.sorted[pi].1.is_match(&x);
+                out.push((x, vec!["B".into(), format!("{}:{:?}", name, pref).replace(|c: char| c.is_ascii_digit(), "k"), cname.into(), (if is { "hit" } else { "nohit" }).into()], vec![pi]));
+            }
+        }
+        // C. every carrier kind, letters-preferring minimum sample and a random one, maximum counts once
+        for ck in 0..CARRIERS {
+            for (pref, reps) in [(Pref::Letters, Reps::Min), (Pref::Mixed, Reps::Rand), (Pref::Digits, Reps::Max)] {
+                if reps == Reps::Max && ck > 1 { continue; }
+                let mut m = String::new();
+                sample(r, ast, &Policy { pref, reps, force: None }, &mut m);
+                let (x, cname) = carrier(ck, &m);
+                let is = p.sorted[pi].1.is_match(&x);
+                out.push((x, vec!["C".into(), name.clone(), cname.into(), (if is { "hit" } else { "nohit" }).into()], vec![pi]));
+            }
+        }
+    }
+    // D. ordered pairs of patterns, letters-preferring, glued or separated, in digit-free carriers
+    for a in 0..np { for b in 0..np {
+        for j in 0..2 {
+            let mut ma = String::new(); let mut mb = String::new();
+            let pa = Policy { pref: if j == 0 { Pref::Letters } else { Pref::Mixed }, reps: if j == 0 { Reps::Min } else { Reps::Rand }, force: None };
+            sample(r, &p.asts[a], &pa, &mut ma); sample(r, &p.asts[b], &pa, &mut mb);
+            let joiner = *r.pick(&[" ", " ", "", ",", "-", ".", " and ", "/"]);
+            let (x, cname) = carrier(*r.pick(&[0usize, 1, 1, 2, 3, 4]), &format!("{}{}{}", ma, joiner, mb));
+            if x.chars().count() > 200 { continue; }
+            out.push((x, vec!["D".into(), "pair".into(), cname.into(), format!("join{:?}", joiner)], vec![a, b]));
+        }
+    }}
+    // coverage the corpus promises; a gap is a generator defect and is made visible
+    for g in &gaps { eprintln!("C36 corpus coverage gap: {}", g); }
+    if !gaps.is_empty() { out.push((String::new(), vec![format!("COVERAGE-GAP({})", gaps.len())], vec![])); }
+    out
+}
+
 // ------------------------------------------------------------------ the harness's own passes
 /// the seven replace_all passes with provenance: (char, pass number that inserted it, 0 = input)
 fn marked_passes(p: &Pats, x: &str) -> Vec<(char, usize)> {
@@ -232,67 +481,82 @@ fn uctable(p: &Pats, texts: &[&str]) -> T {
 
 fn cps(s: &str) -> T { T::C("u8", vec![T::H(s.as_bytes().to_vec())]) }
 
+/// one text through the implementation, the property oracle and both streams
+fn one(p: &Pats, w: &mut dyn std::io::Write, stream: &str, x: String, mut tags: Vec<String>, span_idxs: Vec<usize>) {
+    let res = catch({ let x = x.clone(); move || {
+        let c0 = contains_pii(&x);
+        let y = mask_pii(&x);
+        let c1 = contains_pii(&y);
+        let y2 = mask_pii(&y);
+        (c0, y, c1, y2)
+    }});
+    let input = T::Tup(vec![uctable(p, &[&x]), T::H(x.as_bytes().to_vec())]);
+    let key = blake3::hash(x.as_bytes()).to_hex()[..16].to_string();
+    let (c0, y, c1, y2) = match res {
+        Some(t) => t,
+        None => {
+            emit(w, stream, &Case { input, output: T::C("Panic", vec![T::N(0)]), violation: Some("panic: mask_pii / contains_pii panicked".into()), nontrivial: true, tags, key });
+            return;
+        }
+    };
+    let idem = y2 == y;
+    // the harness's own marked run decides the class; granted only if it reproduces mask_pii
+    let fm = marked_passes(p, &x);
+    let rebuilt: String = fm.iter().map(|t| t.0).collect();
+    let kc = known_class(p, &fm);
+    let mut viol = None;
+    if c1 || !idem {
+        let what = format!("mask_pii({:?}) = {:?}: contains_pii still {} and masking again gives {:?}", x, y, c1, y2);
+        viol = Some(match (&kc, rebuilt == y) {
+            (Some(why), true) => format!("token-boundary-rematch: {} ({})", what, why),
+            _ => format!("residual-pii: {}", what),
+        });
+    } else if !c0 && y != x {
+        viol = Some(format!("clean-text-changed: contains_pii({:?}) is false but mask_pii returned {:?}", x, y));
+    }
+    for t in TOKENS { if y.contains(t) && !x.contains(t) { tags.push(format!("masked{}", t)); } }
+    tags.push(if c0 { "detected".into() } else { "clean".into() });
+    if kc.is_some() { tags.push("knownclass".into()); }
+    if y == x && c0 { tags.push("detected-but-unchanged".into()); }
+    let output = T::Tup(vec![T::B(c0), cps(&y), T::B(c1), T::B(idem), T::B(kc.is_some())]);
+    emit(w, stream, &Case { input, output, violation: viol, nontrivial: c0 || y != x, tags, key: key.clone() });
+
+    // per-pattern is_match and find_iter spans
+    for idx in span_idxs {
+        let (name, re) = &p.sorted[idx];
+        let b2c = byte_to_char(&x);
+        let spans: Vec<T> = re.find_iter(&x).map(|m| T::Tup(vec![T::N(b2c[m.start()] as u128), T::N(b2c[m.end()] as u128)])).collect();
+        let nsp = spans.len();
+        let out = T::Tup(vec![T::B(re.is_match(&x)), T::L(spans)]);
+        let inp = T::Tup(vec![uctable(p, &[&x]), T::N(idx as u128), T::H(x.as_bytes().to_vec())]);
+        emit(w, "spans", &Case { input: inp, output: out, violation: None, nontrivial: nsp > 0,
+                                 tags: vec![name.clone(), format!("spans{}", nsp.min(3)), stream.to_string()], key: format!("{}-{}", key, idx) });
+    }
+}
+
+fn matching(p: &Pats, x: &str) -> Vec<usize> { (0..p.sorted.len()).filter(|i| p.sorted[*i].1.is_match(x)).collect() }
+
 pub fn run(seed: u64, n: usize, w: &mut dyn std::io::Write) {
     let p = load();
     let mut r = Rng::new(seed ^ 0xC36);
-    // fixed witnesses first (the listed known finding is re-run every time), then generated texts
+    // 1. fixed witnesses (the listed known finding is re-run every time): every pattern's spans
     let fixed = ["1234567890123456789", "123-45671234567890", "Contact john@example.com at 555-123-4567. SSN: 123-45-6789",
-                 "", "Invoice #12345 for $100.00", "Meeting on 2024-01-15", "[SSN][PHONE] [EMAIL]", "123456789[PHONE]"];
-    let total = n + fixed.len();
-    for k in 0..total {
-        let (x, mut tags) = if k < fixed.len() { (fixed[k].to_string(), vec!["fixed".to_string()]) } else { gen_text(&mut r) };
-        let res = catch({ let x = x.clone(); move || {
-            let c0 = contains_pii(&x);
-            let y = mask_pii(&x);
-            let c1 = contains_pii(&y);
-            let y2 = mask_pii(&y);
-            (c0, y, c1, y2)
-        }});
-        let input = T::Tup(vec![uctable(&p, &[&x]), T::H(x.as_bytes().to_vec())]);
-        let key = blake3::hash(x.as_bytes()).to_hex()[..16].to_string();
-        let (c0, y, c1, y2) = match res {
-            Some(t) => t,
-            None => {
-                emit(w, "mask", &Case { input, output: T::C("Panic", vec![T::N(0)]), violation: Some("panic: mask_pii / contains_pii panicked".into()), nontrivial: true, tags, key });
-                continue;
-            }
-        };
-        let idem = y2 == y;
-        // the harness's own marked run decides the class; granted only if it reproduces mask_pii
-        let fm = marked_passes(&p, &x);
-        let rebuilt: String = fm.iter().map(|t| t.0).collect();
-        let kc = known_class(&p, &fm);
-        let mut viol = None;
-        if c1 || !idem {
-            let what = format!("mask_pii({:?}) = {:?}: contains_pii still {} and masking again gives {:?}", x, y, c1, y2);
-            viol = Some(match (&kc, rebuilt == y) {
-                (Some(why), true) => format!("token-boundary-rematch: {} ({})", what, why),
-                _ => format!("residual-pii: {}", what),
-            });
-        } else if !c0 && y != x {
-            viol = Some(format!("clean-text-changed: contains_pii({:?}) is false but mask_pii returned {:?}", x, y));
-        }
-        for t in TOKENS { if y.contains(t) && !x.contains(t) { tags.push(format!("masked{}", t)); } }
-        tags.push(if c0 { "detected".into() } else { "clean".into() });
-        if kc.is_some() { tags.push("knownclass".into()); }
-        if y == x && c0 { tags.push("detected-but-unchanged".into()); }
-        let output = T::Tup(vec![T::B(c0), cps(&y), T::B(c1), T::B(idem), T::B(kc.is_some())]);
-        emit(w, "mask", &Case { input, output, violation: viol, nontrivial: c0 || y != x, tags: tags.clone(), key: key.clone() });
-
-        // per-pattern is_match and find_iter spans: every pattern on the fixed texts; on generated
-        // texts every pattern that matches somewhere plus, on every third text, a random one
-        let mut idxs: Vec<usize> = if k < fixed.len() { (0..p.sorted.len()).collect() }
-                                   else { (0..p.sorted.len()).filter(|i| p.sorted[*i].1.is_match(&x)).collect() };
-        if k >= fixed.len() && k % 3 == 0 { let e = r.below(p.sorted.len() as u64) as usize; if !idxs.contains(&e) { idxs.push(e); } }
-        for idx in idxs {
-            let (name, re) = &p.sorted[idx];
-            let b2c = byte_to_char(&x);
-            let spans: Vec<T> = re.find_iter(&x).map(|m| T::Tup(vec![T::N(b2c[m.start()] as u128), T::N(b2c[m.end()] as u128)])).collect();
-            let nsp = spans.len();
-            let out = T::Tup(vec![T::B(re.is_match(&x)), T::L(spans)]);
-            let inp = T::Tup(vec![uctable(&p, &[&x]), T::N(idx as u128), T::H(x.as_bytes().to_vec())]);
-            emit(w, "spans", &Case { input: inp, output: out, violation: None, nontrivial: nsp > 0,
-                                     tags: vec![name.clone(), format!("spans{}", nsp.min(3))], key: format!("{}-{}", key, idx) });
-        }
+                 "", "Invoice #12345 for $100.00", "Meeting on 2024-01-15", "[SSN][PHONE] [EMAIL]", "123456789[PHONE]",
+                 "export api_key=abcdefghijklmnopqrstuvwxyz"];
+    for x in fixed { one(&p, w, "mask", x.to_string(), vec!["fixed".to_string()], (0..p.sorted.len()).collect()); }
+    // 2. the corpus sampled from the pattern ASTs (same size whatever n is): spans of the sampled
+    //    pattern(s) and of every pattern that matches
+    let mut rc = Rng::new(seed ^ 0xC36_C0);
+    for (x, tags, pats) in corpus(&p, &mut rc) {
+        let mut idxs = matching(&p, &x);
+        for q in pats { if !idxs.contains(&q) { idxs.push(q); } }
+        one(&p, w, "corpus", x, tags, idxs);
+    }
+    // 3. generated texts: spans of every pattern that matches plus, on every third text, a random one
+    for k in 0..n {
+        let (x, tags) = gen_text(&mut r);
+        let mut idxs = matching(&p, &x);
+        if k % 3 == 0 { let e = r.below(p.sorted.len() as u64) as usize; if !idxs.contains(&e) { idxs.push(e); } }
+        one(&p, w, "mask", x, tags, idxs);
     }
 }
